@@ -120,6 +120,64 @@ def cli_part(v):
                     v.violation({"part": "cli-skip", "policy": policy, "where": where, "rebuild_forced": False}, {"rc": rc, "mentions": bad, "out": (out + err)[-800:], "config": config(where, policy)})
                 else:
                     ok += 1
+        # every skippable kind SQLite can produce, one table per kind: skipping kind k removes exactly the statements of table t_k
+        n += 1
+        ws3 = cli.WS()
+        try:
+            cli.sql(ws3.db, """CREATE TABLE parent (id integer NOT NULL PRIMARY KEY);
+CREATE TABLE k_add_column (id integer NOT NULL);
+CREATE TABLE k_drop_column (id integer NOT NULL, x text);
+CREATE TABLE k_modify_column (id integer NOT NULL, x text);
+CREATE TABLE k_add_index (id integer NOT NULL, x text);
+CREATE TABLE k_drop_index (id integer NOT NULL, x text); CREATE INDEX i_drop ON k_drop_index (x);
+CREATE TABLE k_modify_index (id integer NOT NULL, x text); CREATE INDEX i_mod ON k_modify_index (x);
+CREATE TABLE k_add_foreign_key (id integer NOT NULL, p integer);
+CREATE TABLE k_drop_foreign_key (id integer NOT NULL, p integer, CONSTRAINT fk_drop FOREIGN KEY (p) REFERENCES parent (id));
+CREATE TABLE k_modify_foreign_key (id integer NOT NULL, p integer, CONSTRAINT fk_mod FOREIGN KEY (p) REFERENCES parent (id) ON DELETE CASCADE);
+CREATE TABLE k_drop_table (id integer NOT NULL);""")
+            def col(name, typ="integer", null="false"):
+                return '  column "%s" {\n    null = %s\n    type = %s\n  }\n' % (name, null, typ)
+            def tab(name, body):
+                return 'table "%s" {\n  schema = schema.main\n%s}\n' % (name, body)
+            fkb = lambda name, extra="": '  foreign_key "%s" {\n    columns = [column.p]\n    ref_columns = [table.parent.column.id]\n%s  }\n' % (name, extra)
+            d3 = 'schema "main" {\n}\n' + tab("parent", col("id") + '  primary_key {\n    columns = [column.id]\n  }\n') \
+                + tab("k_add_column", col("id") + col("y", "text", "true")) \
+                + tab("k_drop_column", col("id")) \
+                + tab("k_modify_column", col("id") + col("x", "text", "false").replace("  }\n", '    default = "q"\n  }\n')) \
+                + tab("k_add_index", col("id") + col("x", "text", "true") + '  index "i_add" {\n    columns = [column.x]\n  }\n') \
+                + tab("k_drop_index", col("id") + col("x", "text", "true")) \
+                + tab("k_modify_index", col("id") + col("x", "text", "true") + '  index "i_mod" {\n    unique = true\n    columns = [column.x]\n  }\n') \
+                + tab("k_add_foreign_key", col("id") + col("p", "integer", "true") + fkb("fk_add")) \
+                + tab("k_drop_foreign_key", col("id") + col("p", "integer", "true")) \
+                + tab("k_modify_foreign_key", col("id") + col("p", "integer", "true") + fkb("fk_mod", "    on_delete = SET_NULL\n")) \
+                + tab("k_add_table", col("id"))
+            dfile = os.path.join(ws3.root, "d.hcl")
+            open(dfile, "w").write(d3)
+            kinds = ["add_column", "drop_column", "modify_column", "add_index", "drop_index", "modify_index", "add_foreign_key", "drop_foreign_key", "modify_foreign_key", "add_table", "drop_table"]
+
+            def plan(policy):
+                cfg = os.path.join(ws3.root, "atlas.hcl")
+                skip = "  diff {\n    skip {\n      %s = true\n    }\n  }\n" % policy if policy else ""
+                open(cfg, "w").write('env "dev" {\n  url = "%s"\n  src = "file://%s"\n%s}\n' % (ws3.url(), dfile, skip))
+                rc, out, err = ws3.atlas("schema", "apply", "--env", "dev", "-c", "file://" + cfg, "--dry-run")
+                return rc, out + err
+            rc0, base = plan("")
+            touched = lambda text: sorted(k for k in kinds if ("k_" + k) in text)
+            if rc0 != 0 or touched(base) != sorted(kinds):
+                raise vf.Infra("skip-kind scenario: the unrestricted plan does not touch every table: rc=%d %s\n%s" % (rc0, touched(base), base[-1500:]))
+            bad = {}
+            for k in kinds:
+                rc, text = plan(k)
+                want = sorted(x for x in kinds if x != k)
+                if rc != 0 or touched(text) != want:
+                    bad[k] = {"rc": rc, "tables_in_plan": touched(text), "expected": want, "out": text[-600:]}
+            if bad:
+                for k, det in bad.items():
+                    v.violation({"part": "cli-skip-kind", "kind": k, "rebuild_forced": False}, det)
+            else:
+                ok += 1
+        finally:
+            ws3.close()
         # a skipped drop next to a change that makes SQLite re-create the table: the column / index must survive the rebuild
         n += 1
         ws2 = cli.WS()
